@@ -125,3 +125,4 @@ async def test_start_task_after_stop_and_restart_runs_two_instances() -> None:
 
 
 if __name__ == "__main__":
+    raise SystemExit(pytest.main(["-q", "-p", "no:cacheprovider", __file__]))
